@@ -30,6 +30,10 @@ if "VERIF_REPO" in os.environ:
 TLCDIR = VERIF / ".tlc"
 EVID = VERIF / "evidence"
 REPLAYS = VERIF / "replays"
+if "VERIF_REPO" in os.environ:
+    # ... and its own evidence / replay directories: /verif/evidence describes runs on /repo only
+    EVID = BUILD / "evidence"
+    REPLAYS = BUILD / "replays"
 NCPU = os.cpu_count() or 4
 
 TLA_CP = "/opt/veriftools/tla/tla2tools.jar:/opt/veriftools/tla/CommunityModules-deps.jar"
@@ -529,7 +533,7 @@ class Check:
             "wall_s": round(wall, 2),
             "violations": len(self.violations),
         }
-        EVID.mkdir(exist_ok=True)
+        EVID.mkdir(parents=True, exist_ok=True)
         (EVID / f"{self.pid}.json").write_text(json.dumps(ev, indent=1))
         for k in self.known:
             print(f"KNOWN-FINDING: property={self.pid} {k['id']}: {k['what']}")
